@@ -442,7 +442,12 @@ func banRequests(steps int) (string, map[string]interface{}) {
 			req, _ := json.Marshal(map[string]interface{}{"secret": master, "target": targets[k], "banned": banned})
 			st := statusOf(cl.roundTrip(&mqtt.Publish{Header: mqtt.Header{QOS: 1}, MessageID: uint16(s + 1), Topic: []byte("emitter/keyban/"), Payload: req}, mqtt.TypeOfPuback))
 			ops = append(ops, vlib.App("RBan", vlib.N(uint64(k)), vlib.Bool(banned), vlib.Z(clock), vlib.N(uint64(st))))
-		case x < 48: // a request that must be refused: not a master key / a target of another contract
+		case x < 44: // the same toggle arrives from another broker (merged gossip), not through a request here
+			banned := r.Intn(2) == 0
+			b := event.Ban(targets[k])
+			svc.VerifSwarm().Notify(&b, banned)
+			ops = append(ops, vlib.App("RBan", vlib.N(uint64(k)), vlib.Bool(banned), vlib.Z(clock), "200"))
+		case x < 52: // a request that must be refused: not a master key / a target of another contract
 			secret, target := targets[1-k], targets[k]
 			if r.Intn(2) == 0 {
 				secret, target = master, mk(security.AllowRead, "a/", lic.Contract()+1)
@@ -618,7 +623,7 @@ func main() {
 			t, h := banRequests(15 + r.Intn(25))
 			sh.Add(t, h, "ban-requests", true)
 		}
-		sh.Finish("emitter/keyban/ requests (ban, unban, refused ones) and uses of the key (publish, subscribe, unsubscribe) through a real clustered broker.Service over in-memory connections, with restarts on the same state directory; random sequences of ban / unban / use on broker A over a real durable state directory, restarts of A on the same directory after any prefix, and full-state merges into a second durable broker B that has or has not looked the key up before; the persisted record's expiry after every ban / unban; two runs of 8 concurrent readers against 1.5 s of ban / unban toggles; non-trivial: all (every history has >= 10 operations)")
+		sh.Finish("emitter/keyban/ requests (ban, unban, refused ones), the same toggles arriving from another broker, and uses of the key (publish, subscribe, unsubscribe) through a real clustered broker.Service over in-memory connections, with restarts on the same state directory; random sequences of ban / unban / use on broker A over a real durable state directory, restarts of A on the same directory after any prefix, and full-state merges into a second durable broker B that has or has not looked the key up before; the persisted record's expiry after every ban / unban; two runs of 8 concurrent readers against 1.5 s of ban / unban toggles; non-trivial: all (every history has >= 10 operations)")
 		return
 	}
 	for i := 0; i < 150*cfg.Mult; i++ {
